@@ -1437,4 +1437,101 @@ theorem Chain.shape_pos {src tgt : Geom} (h : Chain src tgt) (hs : ∀ i, 1 ≤ 
       intro i
       exact (getitemAxis_range _ _ _ _ _ (hax i)).2.2.1
 
+
+/-- a well-formed geometry has a non-singular affine matrix (`det² = (s₀ s₁ s₂)²`, Gram identity) -/
+theorem WF.det_ne_zero {g : Geom} (hwf : WF g) : g.aff.det ≠ 0 := by
+  have h00 := hwf.orth 0 0; have h01 := hwf.orth 0 1; have h02 := hwf.orth 0 2
+  have h11 := hwf.orth 1 1; have h12 := hwf.orth 1 2; have h22 := hwf.orth 2 2
+  have s0 := hwf.spacing_pos 0; have s1 := hwf.spacing_pos 1; have s2 := hwf.spacing_pos 2
+  simp only [V3.dot] at h00 h01 h02 h11 h12 h22
+  simp at h00 h01 h02 h11 h12 h22
+  intro hdet
+  simp only [Geom.aff, Aff.det, Geom.col, V3.dot, V3.cross, V3.smul] at hdet
+  generalize g.dir 0 = d0 at *
+  generalize g.dir 1 = d1 at *
+  generalize g.dir 2 = d2 at *
+  obtain ⟨a0, a1, a2⟩ := d0
+  obtain ⟨b0, b1, b2⟩ := d1
+  obtain ⟨c0, c1, c2⟩ := d2
+  simp only [] at *
+  -- D = det of the unit vectors; D^2 = 1 by the Gram identity
+  have hD : (a0 * (b1 * c2 - b2 * c1) + a1 * (b2 * c0 - b0 * c2) + a2 * (b0 * c1 - b1 * c0)) ^ 2 = 1 := by
+    have gram : (a0 * (b1 * c2 - b2 * c1) + a1 * (b2 * c0 - b0 * c2) + a2 * (b0 * c1 - b1 * c0)) ^ 2 =
+        (a0 * a0 + a1 * a1 + a2 * a2) * (b0 * b0 + b1 * b1 + b2 * b2) * (c0 * c0 + c1 * c1 + c2 * c2)
+        + 2 * (a0 * b0 + a1 * b1 + a2 * b2) * (b0 * c0 + b1 * c1 + b2 * c2) * (a0 * c0 + a1 * c1 + a2 * c2)
+        - (a0 * a0 + a1 * a1 + a2 * a2) * (b0 * c0 + b1 * c1 + b2 * c2) ^ 2
+        - (b0 * b0 + b1 * b1 + b2 * b2) * (a0 * c0 + a1 * c1 + a2 * c2) ^ 2
+        - (c0 * c0 + c1 * c1 + c2 * c2) * (a0 * b0 + a1 * b1 + a2 * b2) ^ 2 := by ring
+    rw [gram, h00, h01, h02, h11, h12, h22]; norm_num
+  have hprod : g.spacing 0 * g.spacing 1 * g.spacing 2 *
+      (a0 * (b1 * c2 - b2 * c1) + a1 * (b2 * c0 - b0 * c2) + a2 * (b0 * c1 - b1 * c0)) = 0 := by
+    rw [← hdet]; ring
+  have hs : g.spacing 0 * g.spacing 1 * g.spacing 2 ≠ 0 := by positivity
+  have hDz : (a0 * (b1 * c2 - b2 * c1) + a1 * (b2 * c0 - b0 * c2) + a2 * (b0 * c1 - b1 * c0)) = 0 := by
+    rcases mul_eq_zero.mp hprod with h | h
+    · exact absurd h hs
+    · exact h
+  rw [hDz] at hD
+  norm_num at hD
+
+
+
+theorem Chain.trans {a b c : Geom} (h1 : Chain a b) (h2 : Chain b c) : Chain a c := by
+  induction h2 with
+  | refl => exact h1
+  | step _ o ih => exact ih.step o
+
+theorem permute_geom {α : Type} (v w : Vol α) (p : Ax → Ax) (h : permute v p = .ok w) :
+    permuteGeom v.geom p = .ok w.geom := by
+  unfold permute at h
+  cases hg : permuteGeom v.geom p with
+  | error e => simp [hg] at h
+  | ok g =>
+    simp only [hg] at h
+    injection h with h
+    subst h
+    rfl
+
+theorem matchApply_chain {α : Type} (nv r : Vol α) (pl : AxisPlan × AxisPlan × AxisPlan) (c : α)
+    (h : matchApply nv pl c = .ok r) : Chain nv.geom r.geom := by
+  unfold matchApply at h
+  cases hpad : (if pl.2.2.requiresPad then
+           pad nv (mk3 pl.1.before pl.2.1.before pl.2.2.before) (mk3 pl.1.after pl.2.1.after pl.2.2.after) c
+         else .ok nv) with
+  | error e => simp [hpad] at h
+  | ok nv1 =>
+    simp only [hpad] at h
+    have h1 : Chain nv.geom nv1.geom := by
+      by_cases hrp : pl.2.2.requiresPad = true
+      · rw [if_pos hrp] at hpad
+        exact (Chain.refl _).step (GeomOp.pad _ _ _ _ (pad_prov _ _ _ _ _ hpad).2)
+      · rw [if_neg hrp] at hpad
+        injection hpad with hpad
+        subst hpad
+        exact Chain.refl _
+    by_cases hrc : pl.2.2.requiresCrop = true
+    · rw [if_pos hrc] at h
+      obtain ⟨first, step, hg, _⟩ := getitem_sub _ _ _ h
+      exact h1.step (GeomOp.index _ _ _ _ _ hg)
+    · rw [if_neg hrc] at h
+      injection h with h
+      subst h
+      exact h1
+
+/-- whatever `matchGeometry` returns is obtained from the source by permute / pad / index steps -/
+theorem matchGeometry_chain {α : Type} (src : Vol α) (tgt : Geom) (tol : Rat) (c : α) (r : Vol α)
+    (h : matchGeometry src tgt tol c = .ok r) : Chain src.geom r.geom := by
+  obtain ⟨_, _, p, steps, nv, pl, _, hp, _, hap, _⟩ := matchGeometry_ok src tgt tol c r h
+  have h2 := matchApply_chain nv r pl c hap
+  have h1 : Chain src.geom nv.geom := by
+    by_cases hrp : requiresPermute p = true
+    · rw [if_pos hrp] at hp
+      exact (Chain.refl _).step (GeomOp.permute _ _ _ (permute_geom _ _ _ hp))
+    · rw [if_neg hrp] at hp
+      injection hp with hp
+      subst hp
+      exact Chain.refl _
+  exact h1.trans h2
+
+
 end HdVerif.Match
